@@ -25,6 +25,7 @@ def run(prog: Program, rep: Report, tier: str):
     rule_bnaf_tree(prog, rep)
     rule_coupling(prog, rep)
     rule_block(prog, rep)
+    rule_constructor(prog, rep)
     if tier == "thorough":
         from ..audit import audit_generic
         audit_generic(prog, rep, "C09")
@@ -314,3 +315,35 @@ def rule_block(prog, rep):
                 ("ite", ("call", ("ext", "builtins.isinstance"), (A, ("ext", "flowjax.bijections.bijection.AbstractBijection")), ()),
                  A, ("call", ("ext", BN + "_CallableToBijection"), (), (("fn", A),))))
     compare(rep, "C09.block", site, "BlockAutoregressiveNetwork.activation", act, want_act, "activation")
+
+
+RAVEL_REF = (
+    "def get_ravelled_pytree_constructor(tree, filter_spec=eqx.is_inexact_array):\n"
+    "    params, static = eqx.partition(tree, filter_spec, is_leaf=lambda leaf: isinstance(leaf, flowjax.wrappers.NonTrainable))\n"
+    "    init, unravel = ravel_pytree(params)\n"
+    "    def constructor(ravelled_params):\n"
+    "        return eqx.combine(unravel(ravelled_params + init), static)\n"
+    "    return constructor, len(init)\n")
+
+
+def rule_constructor(prog, rep):
+    rep.rule("C09.transformer", "the transformer of a coupling / masked autoregressive layer is rebuilt per coordinate "
+                                "from its own row of network outputs: params reshaped (dim, -1), the ravelled-pytree "
+                                "constructor vmapped over rows (offset by the initial parameters, frozen leaves static), "
+                                "wrapped in Vmap(in_axes=if_array(0)) and applied to the coordinates", minimum=3)
+    m, fn = prog.func("flowjax.utils.get_ravelled_pytree_constructor")
+    T, FS = ("sym", "TREE"), ("sym", "FILTER_SPEC")
+    got = Interp(prog).eval_function("flowjax.utils.get_ravelled_pytree_constructor", [T, FS])
+    want = eval_ref_function(prog, m, RAVEL_REF, [T, FS])
+    compare(rep, "C09.transformer", f"{m.relpath}:{fn.lineno}", "get_ravelled_pytree_constructor", got, want, "constructor")
+    for q, dimsrc in (("flowjax.bijections.coupling.Coupling", "self.dim - self.untransformed_dim"),
+                      ("flowjax.bijections.masked_autoregressive.MaskedAutoregressive", "self.shape[-1]")):
+        c = prog.cls(q)
+        ref = ("def _flat_params_to_transformer(self, params):\n"
+               f"    dim = {dimsrc}\n"
+               "    return Vmap(eqx.filter_vmap(self.transformer_constructor)(jnp.reshape(params, (dim, -1))), in_axes=eqx.if_array(0))\n")
+        P = ("sym", "PARAMS")
+        got = Interp(prog).eval_method(c, "_flat_params_to_transformer", [P])
+        want = eval_ref_method(prog, c, ref, [P])
+        compare(rep, "C09.transformer", method_site(prog, c, "_flat_params_to_transformer"),
+                f"{c.name}._flat_params_to_transformer", got, want, "per-coordinate transformer")
